@@ -1,7 +1,7 @@
 """C20 — cooling models stay inside their physical envelope: only the clauses decidable by calculus on the
 closed forms extracted from the code (boundary attainment; half-space envelope and monotonicity)."""
 from .. import facts, run
-from ..rules import models, pure
+from ..rules import dep, models, pure
 
 
 def main(tier):
@@ -11,6 +11,7 @@ def main(tier):
     extracted, syms = models.cooling_formulas(P, rep)
     rep.floor("EXPR.cooling.extracted", len(extracted), 3, "closed forms extracted (half space, plate, constant-age plate)")
     models.envelope(P, rep, extracted, syms)
+    dep.surface_pairing(P, rep)  # the model's own top and bottom are the local depths: features hand over, and models use, the local bounds
     models.formulas(P, rep)      # linear models: T_top at the clipped top, T_bottom at the clipped bottom follow from the verified form
     rep.assumptions.append("bounds and monotonicity of the 100-term plate-model series, the mass-conserving slab construction and the slab plate "
                            "model are NOT decided (real analysis of transcendental expressions of run-time quantities); only the listed clauses "
